@@ -1234,6 +1234,7 @@ def explore(fn, shard=None, max_paths=None, deadline=None, on_path=None,
     Ctx.cur = ctx
     stack = [list(root or [])]
     status = "exhausted"
+    gaps, gap_witnesses = [], []
     try:
         while stack:
             if max_paths is not None and ctx.paths >= max_paths:
@@ -1254,7 +1255,9 @@ def explore(fn, shard=None, max_paths=None, deadline=None, on_path=None,
             ctx.start_path(prefix)
             label = None
             skip = False
+            gap = None
             try:
+              try:
                 try:
                     label = fn(ctx)
                 except ShardSkip:
@@ -1265,7 +1268,7 @@ def explore(fn, shard=None, max_paths=None, deadline=None, on_path=None,
                     if ctx.aborted not in ("shard", "infeasible"):
                         try:
                             ctx.aborted = None
-                            ctx.abort_witnesses = ctx.alt_witnesses(None, 6, tag="abort")
+                            ctx.abort_witnesses = ctx.alt_witnesses(None, 6 if not gaps else 2, tag="abort%d" % len(gaps))
                         except BaseException:  # noqa
                             pass
                     raise
@@ -1297,9 +1300,23 @@ def explore(fn, shard=None, max_paths=None, deadline=None, on_path=None,
                         on_path(PathResult(label, vals, obs,
                                            list(ctx.path_violations),
                                            len(ctx.trace)))
+              except EngineUnsupported as e:
+                # this path cannot be encoded: the result is inconclusive whatever happens next, but the other
+                # branches are still explored (and this path's witnesses run concretely) - that can only turn
+                # "inconclusive" into a replayed violation, never into a pass
+                gap = "unsupported: %s" % (e,)
+                gaps.append(gap)
+                for w in (ctx.abort_witnesses or []):
+                    if len(gap_witnesses) < 120 and w not in gap_witnesses:
+                        gap_witnesses.append(w)
+                ctx.abort_witnesses = None
+                if len(gaps) > 12 or "diverged" in gap:
+                    raise
             finally:
                 trace = ctx.trace
                 ctx.end_path()
+            if gap is not None and len(trace) < len(prefix):
+                continue
             if len(trace) < len(prefix):
                 raise EngineUnsupported(
                     "re-execution diverged from its decision prefix (non-deterministic harness?)")
@@ -1312,4 +1329,8 @@ def explore(fn, shard=None, max_paths=None, deadline=None, on_path=None,
         status = "unsupported: %s" % (e,)
     finally:
         Ctx.cur = None
+    if gaps:
+        if status == "exhausted" or status.startswith("budget"):
+            status = gaps[0] + (" (and %d more paths)" % (len(gaps) - 1) if len(gaps) > 1 else "")
+        ctx.abort_witnesses = gap_witnesses + [w for w in (ctx.abort_witnesses or []) if w not in gap_witnesses]
     return ctx, status
